@@ -220,6 +220,38 @@ namespace
     }
 }
 
+namespace
+{
+    // used during the static initialisation of the harness, i.e. before main() (see c20_base64.cc)
+    struct BeforeMain
+    {
+        std::string written, what;
+        bool parsed_ok = false;
+        size_t jar_size = 0;
+        BeforeMain()
+        {
+            try
+            {
+                Cookie k = Cookie::fromString("early=1; Path=/x; Max-Age=3600; Secure; SameSite=Lax");
+                parsed_ok = k.name == "early" && k.value == "1" && k.path && *k.path == "/x" && k.maxAge && *k.maxAge == 3600 && k.secure && k.ext.count("SameSite") && k.ext.at("SameSite") == "Lax";
+                std::ostringstream os;
+                os << k;
+                written = os.str();
+                CookieJar jar;
+                const std::string hdr = "a=1; b=2; a=3";
+                jar.addFromRaw(hdr.data(), hdr.size());
+                for (auto it = jar.begin(); it != jar.end(); ++it)
+                    ++jar_size;
+            }
+            catch (const std::exception& e)
+            {
+                what = e.what();
+            }
+        }
+    };
+    const BeforeMain g_before_main;
+}
+
 namespace verif
 {
     HarnessInfo harness_info() { return { "C17", 220 }; }
@@ -234,6 +266,18 @@ namespace verif
 
     Verdict run_case(const uint8_t* data, size_t size, Report& rep)
     {
+        {
+            static bool judged = false;
+            if (!judged)
+            {
+                judged              = true;
+                const BeforeMain& b = g_before_main;
+                rep.label("used-before-main");
+                V_CHECK(b.what.empty(), "C17/before-main/throws", "cookies used from the initialiser of a namespace-scope object threw: " + b.what);
+                V_CHECK(b.parsed_ok && b.jar_size == 3 && Cookie::fromString(b.written).name == "early", "C17/before-main/wrong",
+                        std::string("cookies handled before main(): parsed ") + (b.parsed_ok ? "ok" : "wrong") + ", written \"" + printable(b.written, 80) + "\", jar of 3 pairs iterates " + std::to_string(b.jar_size));
+            }
+        }
         GroupingLocale loc(GroupingLocale::wanted(data, size));
         if (loc.on)
             rep.label("global-locale-groups-digits");
